@@ -22,7 +22,9 @@ const CLS: [Option<&[u8]>; 12] = [
     Some(b"\xff"),
     Some(b"+1"),
 ];
-const TES: [Option<&[u8]>; 16] = [
+const TES: [Option<&[u8]>; 18] = [
+    Some(b"chunked,"),
+    Some(b"gzip, chunked, "),
     Some(b""),
     Some(b"chunk"),
     Some(b"chunked-v2"),
@@ -369,7 +371,7 @@ impl Property for P {
         "C06"
     }
     fn rule(&self) -> String {
-        "exhaustive decision table through the Flow API: 9 methods x status 101..=999 x response version 1.0/1.1 x 12 Content-Length shapes x 16 Transfer-Encoding shapes (+ header order alternated); each cell feeds a real head + a body in the expected framing + a following response and compares try_response / proceed() variant / body_mode() / delivered body with an independent restatement of RFC 9112 section 6.3 (wire::body_rule). A second table through the Call API (14 statuses) separates 'no body' from 'zero length'. class = rule fired x successor state.".into()
+        "exhaustive decision table through the Flow API: 9 methods x status 101..=999 x response version 1.0/1.1 x 12 Content-Length shapes x 18 Transfer-Encoding shapes (incl. empty list elements, which count for nothing) (+ header order alternated); each cell feeds a real head + a body in the expected framing + a following response and compares try_response / proceed() variant / body_mode() / delivered body with an independent restatement of RFC 9112 section 6.3 (wire::body_rule). A second table through the Call API (14 statuses) separates 'no body' from 'zero length'. class = rule fired x successor state.".into()
     }
     fn assumptions(&self) -> Vec<String> {
         vec![
@@ -380,8 +382,8 @@ impl Property for P {
     }
     fn workloads(&self, _tier: Tier) -> Vec<Workload> {
         vec![
-            Workload::new("flow-table", 9 * 899 * 2 * 12 * 16, true, "full product through Flow"),
-            Workload::new("call-table", 9 * 14 * 2 * 12 * 16, true, "14 statuses through Call::into_body"),
+            Workload::new("flow-table", 9 * 899 * 2 * 12 * 18, true, "full product through Flow"),
+            Workload::new("call-table", 9 * 14 * 2 * 12 * 18, true, "14 statuses through Call::into_body"),
             Workload::new("partial-redirect-framing", 4 * 4 * 2 * 3 * 3, true, "allow_partial_redirect(true): truncated 3xx heads, framing judged on the accepted fields"),
         ]
     }
